@@ -312,8 +312,8 @@ def expectedObs (s : Settings) (client : Bool) (cache : List Nat) : Obs × List 
          else ind + 3 + 2))
      hoverAnswers := true
      inline :=
-       if !s.features.inlineCompletion then some (some (0, -1))
-       else if widthMid ind then none
+       if widthMid ind then none
+       else if !s.features.inlineCompletion then some (some (0, -1))
        else if widthHuge ind then some none
        else some (some (1, ind))
      published := if client then 1 else 0
